@@ -43,11 +43,14 @@ fn le_value(bytes: &[u8]) -> u64 {
 
 trait RawNew: RawData {
     fn mk(v: u32) -> Self;
+    /// through `From<Storage>` instead of `new`
+    fn mk_from(v: u32) -> Self;
     fn get(self) -> u64;
 }
 macro_rules! rawnew {
     ($($t:ident),+) => { $(impl RawNew for $t {
         fn mk(v: u32) -> Self { $t::new(v as _) }
+        fn mk_from(v: u32) -> Self { $t::from(v as <$t as RawData>::Storage) }
         fn get(self) -> u64 { self.into_inner() as u64 }
     })+ };
 }
@@ -80,6 +83,10 @@ where
     let bpp_mask: u64 = if bpp >= 32 { u32::MAX as u64 } else { (1u64 << bpp) - 1 };
     if raw_val != v as u64 & bpp_mask {
         return fail("raw_new_mask", format!("raw new({:#x}) holds {:#x}", v, raw_val));
+    }
+    let raw_f = R::mk_from(v);
+    if raw_f != raw || raw_f.get() != raw_val || be_value(raw_f.to_be_bytes().as_ref()) != raw_val || le_value(raw_f.to_le_bytes().as_ref()) != raw_val {
+        return fail("raw_from_storage", format!("raw From::from({:#x}) holds {:#x} (bytes {:?}), new() holds {:#x}", v, raw_f.get(), raw_f.to_be_bytes().as_ref(), raw_val));
     }
     let c = C::from(raw);
     let back: R = c.into();
@@ -298,7 +305,7 @@ fn raw_from_u32(ex: &Ex) {
     ex.par(7, |i| {
         let (mut n, mut nt) = (0u64, 0u64);
         macro_rules! go {
-            ($r:ty, $bpp:expr) => {{
+            ($r:ty, $bpp:expr, $st:ty) => {{
                 let bpp: u32 = $bpp;
                 let mask: u32 = if bpp == 32 { u32::MAX } else { (1u32 << bpp) - 1 };
                 for low in 0..(1u32 << bpp.min(12)) {
@@ -312,6 +319,16 @@ fn raw_from_u32(ex: &Ex) {
                             let got: u32 = <$r>::from_u32(v).into_inner().into();
                             if got != v & mask {
                                 ex.fail(i * 1_000_000 + low as u64, String::from("raw:from_u32"), format!("from_u32({:#x}).into_inner() = {:#x}, the {} least significant bits are {:#x}", v, got, bpp, v & mask), format!("{} bit raw type", bpp));
+                                return;
+                            }
+                            // the other two ways to make a raw value from its storage integer: `new` and `From<Storage>`
+                            let st = v as $st;
+                            let exp = (st as u32) & mask;
+                            let by_new: u32 = <$r>::new(st).into_inner().into();
+                            let by_from: u32 = <$r>::from(st).into_inner().into();
+                            let by_into: u32 = { let r: $r = st.into(); r.into_inner().into() };
+                            if by_new != exp || by_from != exp || by_into != exp || <$r>::from(st) != <$r>::new(st) {
+                                ex.fail(i * 1_000_000 + low as u64, String::from("raw:from_storage"), format!("storage value {:#x}: new().into_inner() = {:#x}, From::from().into_inner() = {:#x}, .into() = {:#x}, the {} least significant bits are {:#x}", st, by_new, by_from, by_into, bpp, exp), format!("{} bit raw type", bpp));
                                 return;
                             }
                         }
@@ -329,13 +346,13 @@ fn raw_from_u32(ex: &Ex) {
             }};
         }
         match i {
-            0 => go!(RawU1, 1),
-            1 => go!(RawU2, 2),
-            2 => go!(RawU4, 4),
-            3 => go!(RawU8, 8),
-            4 => go!(RawU16, 16),
-            5 => go!(RawU24, 24),
-            _ => go!(RawU32, 32),
+            0 => go!(RawU1, 1, u8),
+            1 => go!(RawU2, 2, u8),
+            2 => go!(RawU4, 4, u8),
+            3 => go!(RawU8, 8, u8),
+            4 => go!(RawU16, 16, u16),
+            5 => go!(RawU24, 24, u32),
+            _ => go!(RawU32, 32, u32),
         }
         ex.add(n, nt);
         ex.sample(|| format!("raw type {}: {} values, {} of them wider than the type", i, n, nt));
